@@ -16,6 +16,7 @@ def run(ctx):
     for _ in range(1500 if ctx.tier == "quick" else 40000):
         k = ctx.rng.choice([2, 3, 3, 4, 5, 6])
         seqs.append([ctx.rng.choice(pool) for _ in range(k)])
+    seqs += [[doc_str(d) for d in s] for s in vlib.scale_seqs()]       # scale / rare-feature stream
     lines = ["from_sources\t" + "\t".join(s) for s in seqs]
     res, _ = ctx.correspond(lines, "from_sources on sequences", lambda l, r: len(set(l.split("\t")[1:])) >= 2)
     if res and res[0] is None:
@@ -49,8 +50,8 @@ def run(ctx):
     ctx.notes["rejected_own_source"] = len(bad)
     # every shape is accepted by itself
     shapes = vlib.level1() + [vlib.rand_shape(ctx.rng, 4) for _ in range(1500 if ctx.tier == "quick" else 30000)]
-    ls = ["subset\t%s\t%s" % (sh_str(s), sh_str(s)) for s in shapes]
-    out, _ = ctx.correspond(ls, "is_subset(s, s)", lambda l, r: vlib.sh_depth(parse_sh(l.split("\t")[1])) >= 2)
+    ls = ["subset\t%s\t%s" % (sh_str(s), sh_str(s)) for s in shapes] + ["subset\t%s\t%s" % (t, t) for t in vlib.scale_shapes()]
+    out, _ = ctx.correspond(ls, "is_subset(s, s)", lambda l, r: l.count("(") + l.count("{") + l.count("[") >= 4)
     for l, r in zip(ls, out):
         if r != "BOOL 1":
             ctx.fail("shape is not accepted by itself", l, r)
